@@ -163,7 +163,7 @@ class BackgroundFamily:
         return {'data': enc(data), 'mask': enc(mask), 'coverage': enc(cov),
                 'threshold': thr}
 
-    def build(self, cfg, sc):
+    def build(self, cfg, sc, shared=None):
         import astropy.units as u
         from astropy.stats import SigmaClip
         from photutils.background import (Background2D, BkgIDWInterpolator,
@@ -198,10 +198,15 @@ class BackgroundFamily:
             bkg_estimator=bkg, bkgrms_estimator=rms,
             interpolator=(BkgZoomInterpolator() if cfg['interp'] == 'zoom'
                           else BkgIDWInterpolator()))
+        if shared is not None:
+            # helper instances handed to several Background2D objects
+            for k in ('interpolator', 'bkg_estimator', 'bkgrms_estimator'):
+                kw[k] = shared.setdefault(k, kw[k])
         return Background2D(data, box, **kw)
 
     def start(self, st, plan):
-        st.obj = call(self.build, st.cfg, st.scene)
+        st.shared = {}
+        st.obj = call(self.build, st.cfg, st.scene, st.shared)
         st.dead = isinstance(st.obj, Raised)
         if st.dead:
             st.stats.probe('constructor_rejected_config')
@@ -249,7 +254,13 @@ class BackgroundFamily:
         st.seen.append(attr)
 
     def decoy(self, st):
-        o = call(self.build, st.cfg, _perturbed(st.scene))
+        # another Background2D built with the *same* interpolator and
+        # estimator instances (they are constructor arguments a caller may
+        # well share), other data, another box layout and mask
+        cfg2 = dict(st.cfg)
+        cfg2['box'] = [[6, 9], [9, 5], [4, 4], 7][len(st.seen) % 4]
+        cfg2['mask'] = not st.cfg['mask']
+        o = call(self.build, cfg2, _perturbed(st.scene), st.shared)
         if not isinstance(o, Raised):
             for a in ('background_rms', 'background', 'background_median'):
                 call(getattr, o, a)
@@ -550,19 +561,21 @@ class ApertureFamily:
                 p[nm] = rng.uniform(1.0, 5.0)
         return p
 
-    def _make(self, cls, positions, params):
+    def _make(self, cls, positions, params, src=None):
         import photutils.aperture as pa
         kw = dict(params)
-        if cls.endswith('Annulus') and cls != 'CircularAnnulus':
-            pass
-        return getattr(pa, cls)(np.array(positions, dtype=float), **kw)
+        arr = np.array(positions, dtype=float) if src is None else src
+        return getattr(pa, cls)(arr, **kw)
 
     def start(self, st, plan):
         sc = st.scene
         st.data = dec(sc['data'])
         st.params = dict(sc['params'])
         st.positions = _copy.deepcopy(sc['positions'])
-        st.obj = call(self._make, st.cfg['cls'], st.positions, st.params)
+        # the caller keeps the float64 array it built the aperture from
+        st.src = np.array(st.positions, dtype=np.float64)
+        st.obj = call(self._make, st.cfg['cls'], st.positions, st.params,
+                      st.src)
         st.dead = isinstance(st.obj, Raised)
         st.nset = 0
         st.last = '-'
@@ -605,6 +618,11 @@ class ApertureFamily:
             # keep annuli valid: scale inner and outer consistently
             val = cur * rng.uniform(0.9, 1.1)
             return {'op': 'set', 'name': nm, 'value': val}
+        if r < 0.46:
+            return {'op': 'alias', 'how': rng.pick(['edit_source',
+                                                    'sibling_inplace',
+                                                    'index_inplace']),
+                    'shift': [rng.uniform(0.5, 3), rng.uniform(-3, -0.5)]}
         reads = ['bbox', 'area', 'shape', 'isscalar', 'len', 'repr',
                  'to_mask_exact', 'to_mask_center', 'to_mask_subpixel',
                  'do_photometry', 'area_overlap', 'positions_readback',
@@ -663,6 +681,29 @@ class ApertureFamily:
         if st.dead:
             raise Inapplicable('dead')
         o = st.obj
+        if op['op'] == 'alias':
+            # in-place edits of arrays that are *not* the aperture: the
+            # array it was built from, the positions of an aperture built
+            # from aper.positions, the positions of aper[i:]
+            d = np.array(op['shift'])
+            how = op['how']
+            if how == 'edit_source':
+                st.src += d
+            elif how == 'sibling_inplace':
+                sib = call(self._make, st.cfg['cls'], None, st.params,
+                           o.positions)
+                if not isinstance(sib, Raised):
+                    p = sib.positions
+                    p += d
+            else:
+                if np.ndim(st.positions[0]) == 0:
+                    return          # a scalar aperture cannot be indexed
+                sub = call(lambda: o[0:1])
+                if not isinstance(sub, Raised):
+                    p = sub.positions
+                    p += d
+            st.stats.probe('aliasing_edit_' + how)
+            return
         if op['op'] == 'set':
             nm, v = op['name'], op['value']
             if nm != 'positions' and nm not in st.params:
